@@ -292,3 +292,159 @@ Proof. exact truncate_ack_fits. Qed.
 Print Assumptions C08_ack_truncate.
 
 (* ==== end frames ==== *)
+(* ==== tparams ==== *)
+(** Transport parameters (internal/wire/transport_parameters.go), model Wire/TParams.v.
+    [enc_params ps] is a list of well-delimited (id, value) parameters, [params_wf] says that
+    ids and lengths are encodable varints, [varint_body body v] that [body] is exactly one varint
+    of value [v] (minimal or padded), [is_err r] that [r] is an error of whatever class. *)
+From V Require Import Lib.Hex Wire.FramesBase Wire.TParams Wire.TParamsProofs Wire.TParamsRoundtrip.
+
+(** The parameter ids are the ones of RFC 9000 section 18.2, RFC 9221, reliable-stream-reset
+    and ack-frequency drafts (an edited id breaks this proof). *)
+Theorem C08_tparams_ids : known_ids =
+  [0; 1; 2; 3; 4; 5; 6; 7; 8; 9; 10; 11; 12; 13; 14; 15; 16; 32; 6745883625174385; 4278509083].
+Proof. exact (eq_refl known_ids). Qed.
+Print Assumptions C08_tparams_ids.
+
+(** The greased parameter Marshal sends first (id 27 + 31 * random byte) is never a known one. *)
+Theorem C08_tparams_grease_unknown : forall k, 0 <= k < 256 -> ~ In (27 + 31 * k) known_ids.
+Proof. exact grease_not_known. Qed.
+Print Assumptions C08_tparams_grease_unknown.
+
+(** Unmarshal (Marshal p) = norm p for both perspectives and every 18 random bytes: durations
+    quantised to ms / us, max_idle_timeout raised to 5 s, max_udp_payload_size 0 -> 2^62-1,
+    unusable preferred addresses dropped, server-only parameters absent for the client. *)
+Theorem C08_tparams_roundtrip : forall pers rnd p,
+  length rnd = 18%nat -> Forall is_byte rnd -> tp_wf p ->
+  unmarshal pers false (marshal pers rnd p) = Ok (tp_norm pers p).
+Proof. exact tparams_roundtrip. Qed.
+Print Assumptions C08_tparams_roundtrip.
+
+Theorem C08_tparams_ticket_roundtrip : forall p,
+  tp_wf_ticket p -> unmarshal_ticket (marshal_ticket p) = Ok (tp_norm_ticket p).
+Proof. exact ticket_roundtrip. Qed.
+Print Assumptions C08_tparams_ticket_roundtrip.
+
+(** A parameter list in which an id occurs twice is rejected (known, unknown or greased id,
+    equal or different values, any distance), and appending a second copy of a parameter to any
+    list makes it rejected; conversely what is accepted has pairwise distinct ids. *)
+Theorem C08_reject_duplicate_tparam : forall pers ticket ps l1 x l2 l3,
+  params_wf ps -> map fst ps = l1 ++ x :: l2 ++ x :: l3 ->
+  is_err (unmarshal pers ticket (enc_params ps)).
+Proof. exact reject_duplicate. Qed.
+Print Assumptions C08_reject_duplicate_tparam.
+
+Theorem C08_reject_duplicate_tparam_appended : forall pers ticket ps id body,
+  params_wf ps -> param_wf (id, body) -> In id (map fst ps) ->
+  is_err (unmarshal pers ticket (enc_params (ps ++ [(id, body)]))).
+Proof. exact reject_duplicate_appended. Qed.
+Print Assumptions C08_reject_duplicate_tparam_appended.
+
+Theorem C08_accepted_tparams_distinct : forall pers ticket ps p,
+  params_wf ps -> unmarshal pers ticket (enc_params ps) = Ok p -> NoDup (map fst ps).
+Proof. exact accepted_nodup. Qed.
+Print Assumptions C08_accepted_tparams_distinct.
+
+(** Range rules.  First conjunct: rejected wherever the parameter stands among well-delimited
+    parameters, whatever follows; second: the error class when it comes first. *)
+Theorem C08_reject_ack_delay_exponent : forall pers ticket ps body v rest,
+  params_wf ps -> varint_body body v -> 20 < v ->
+  is_err (unmarshal pers ticket (enc_params ps ++ enc_param TP_ID_ade body ++ rest)) /\
+  unmarshal pers ticket (enc_param TP_ID_ade body ++ rest) = Err E_TP_ADE 0.
+Proof. exact reject_ack_delay_exponent. Qed.
+Print Assumptions C08_reject_ack_delay_exponent.
+
+Theorem C08_reject_max_ack_delay : forall pers ticket ps body v rest,
+  params_wf ps -> varint_body body v -> 2 ^ 14 <= v ->
+  is_err (unmarshal pers ticket (enc_params ps ++ enc_param TP_ID_mad body ++ rest)) /\
+  unmarshal pers ticket (enc_param TP_ID_mad body ++ rest) = Err E_TP_MAD 0.
+Proof. exact reject_max_ack_delay_pow. Qed.
+Print Assumptions C08_reject_max_ack_delay.
+
+Theorem C08_reject_max_udp_payload_size : forall pers ticket ps body v rest,
+  params_wf ps -> varint_body body v -> v < 1200 ->
+  is_err (unmarshal pers ticket (enc_params ps ++ enc_param TP_ID_mups body ++ rest)) /\
+  unmarshal pers ticket (enc_param TP_ID_mups body ++ rest) = Err E_TP_MUPS 0.
+Proof. exact reject_max_udp_payload_size. Qed.
+Print Assumptions C08_reject_max_udp_payload_size.
+
+Theorem C08_reject_active_cid_limit : forall pers ticket ps body v rest,
+  params_wf ps -> varint_body body v -> v < 2 ->
+  is_err (unmarshal pers ticket (enc_params ps ++ enc_param TP_ID_acil body ++ rest)) /\
+  unmarshal pers ticket (enc_param TP_ID_acil body ++ rest) = Err E_TP_ACIL 0.
+Proof. exact reject_active_cid_limit. Qed.
+Print Assumptions C08_reject_active_cid_limit.
+
+Theorem C08_reject_stream_count : forall pers ticket ps body v rest,
+  params_wf ps -> varint_body body v -> 2 ^ 60 < v ->
+  (is_err (unmarshal pers ticket (enc_params ps ++ enc_param TP_ID_mbs body ++ rest)) /\
+   unmarshal pers ticket (enc_param TP_ID_mbs body ++ rest) = Err E_TP_STREAMS_BIDI 0) /\
+  (is_err (unmarshal pers ticket (enc_params ps ++ enc_param TP_ID_mus body ++ rest)) /\
+   unmarshal pers ticket (enc_param TP_ID_mus body ++ rest) = Err E_TP_STREAMS_UNI 0).
+Proof. exact reject_stream_count_pow. Qed.
+Print Assumptions C08_reject_stream_count.
+
+(** original_destination_connection_id, stateless_reset_token, preferred_address and
+    retry_source_connection_id sent by a client: rejected whatever length and value they have. *)
+Theorem C08_reject_client_server_only : forall ticket ps id body rest,
+  params_wf ps -> vwf (zlen body) -> In id [TP_ID_odcid; TP_ID_srt; TP_ID_pa; TP_ID_rscid] ->
+  is_err (unmarshal Client ticket (enc_params ps ++ enc_param id body ++ rest)) /\
+  exists c, unmarshal Client ticket (enc_param id body ++ rest) = Err c 0 /\
+            In (id, c) [(TP_ID_odcid, E_TP_CLIENT_ODCID); (TP_ID_srt, E_TP_CLIENT_SRT);
+                        (TP_ID_pa, E_TP_CLIENT_PA); (TP_ID_rscid, E_TP_CLIENT_RSCID)].
+Proof. exact reject_client_server_only. Qed.
+Print Assumptions C08_reject_client_server_only.
+
+(** A parameter list without initial_source_connection_id (either sender), or a server's list
+    without original_destination_connection_id, is rejected (not for session tickets). *)
+Theorem C08_reject_missing_iscid : forall pers ps,
+  params_wf ps -> ~ In TP_ID_iscid (map fst ps) -> is_err (unmarshal pers false (enc_params ps)).
+Proof. exact reject_missing_iscid. Qed.
+Print Assumptions C08_reject_missing_iscid.
+
+Theorem C08_reject_missing_odcid : forall ps,
+  params_wf ps -> ~ In TP_ID_odcid (map fst ps) -> is_err (unmarshal Server false (enc_params ps)).
+Proof. exact reject_missing_odcid. Qed.
+Print Assumptions C08_reject_missing_odcid.
+
+(** Connection-ID parameters longer than 20 bytes. *)
+Theorem C08_reject_cid_param_len : forall pers ticket ps id body rest,
+  params_wf ps -> vwf (zlen body) -> In id [TP_ID_odcid; TP_ID_iscid; TP_ID_rscid] -> 20 < zlen body ->
+  is_err (unmarshal pers ticket (enc_params ps ++ enc_param id body ++ rest)) /\
+  (pers = Server \/ id = TP_ID_iscid -> unmarshal pers ticket (enc_param id body ++ rest) = Err E_TP_CID_LEN 0).
+Proof. exact reject_cid_param_len. Qed.
+Print Assumptions C08_reject_cid_param_len.
+
+(** Non-vacuity: the hypotheses hold for concrete values, and the concrete instances evaluate to
+    what the theorems say. *)
+Example C08_tparams_wf_example :
+  tp_wf ex_tp /\ tp_wf_ticket ex_tp /\ length ex_rnd = 18%nat /\ Forall is_byte ex_rnd /\
+  unmarshal Server false (marshal Server ex_rnd ex_tp) = Ok (tp_norm Server ex_tp) /\
+  unmarshal Client false (marshal Client ex_rnd ex_tp) = Ok (tp_norm Client ex_tp) /\
+  tp_norm Server ex_tp <> tp_norm Client ex_tp /\
+  unmarshal_ticket (marshal_ticket ex_tp) = Ok (tp_norm_ticket ex_tp).
+Proof. exact ex_tp_roundtrip. Qed.
+Print Assumptions C08_tparams_wf_example.
+
+Example C08_tparams_params_example :
+  params_wf ex_ps_server /\
+  (exists p, unmarshal Server false (enc_params ex_ps_server) = Ok p /\ tp_imd p = 786432) /\
+  unmarshal Server false (enc_params (ex_ps_server ++ [(TP_ID_imd, vappend 5)])) = Err E_TP_DUP TP_ID_imd /\
+  unmarshal Server false (enc_params ((27, []) :: ex_ps_server)) = Err E_TP_DUP 27 /\
+  varint_body (vappend 21) 21 /\ varint_body [64; 21] 21.
+Proof. exact ex_params. Qed.
+Print Assumptions C08_tparams_params_example.
+
+Example C08_tparams_reject_example :
+  unmarshal Server false (enc_params ex_ps_server ++ enc_param TP_ID_ade [64; 21] ++ [255]) = Err E_TP_ADE 0 /\
+  unmarshal Server false (enc_params ex_ps_server ++ enc_param TP_ID_mad (vappend 16384)) = Err E_TP_MAD 0 /\
+  unmarshal Server false (enc_params ex_ps_server ++ enc_param TP_ID_mups (vappend 1199)) = Err E_TP_MUPS 0 /\
+  unmarshal Server false (enc_params ex_ps_server ++ enc_param TP_ID_acil (vappend 1)) = Err E_TP_ACIL 0 /\
+  unmarshal Server false (enc_params ex_ps_server ++ enc_param TP_ID_mbs (vappend (TP_MaxStreamCount + 1))) = Err E_TP_STREAMS_BIDI 0 /\
+  unmarshal Client false (enc_params [(TP_ID_iscid, [])] ++ enc_param TP_ID_srt (repeat 7 16)) = Err E_TP_CLIENT_SRT 0 /\
+  unmarshal Client false (enc_params [(TP_ID_iscid, repeat 1 21)]) = Err E_TP_CID_LEN 0 /\
+  unmarshal Client false (enc_params [(TP_ID_imd, vappend 9)]) = Err E_TP_MISSING_ISCID 0 /\
+  unmarshal Server false (enc_params [(TP_ID_iscid, [1])]) = Err E_TP_MISSING_ODCID 0.
+Proof. exact ex_range_rejected. Qed.
+Print Assumptions C08_tparams_reject_example.
+(* ==== end tparams ==== *)
